@@ -275,6 +275,9 @@ class AbsEval:
                 other = l if r == NONE else r
                 n = is_none(other)
                 eq = n
+            elif l != TOP and r != TOP and l[0] == "obj" and r[0] == "obj" and str(l[1]).startswith("#") \
+                    and str(r[1]).startswith("#"):
+                eq = (l == r)          # identity tokens chosen by a rule: distinct tags are distinct objects
             elif l == TOP or r == TOP or l[0] == "obj" or r[0] == "obj" or l == EMPTY or r == EMPTY:
                 eq = None
             elif l[0] in ("const", "sym", "fn", "cls", "tuple") and r[0] in ("const", "sym", "fn", "cls", "tuple"):
